@@ -210,7 +210,7 @@ CODE = """
         let src: [U8x2; 6] = [U8x2::new([sp[0], 0u8]), U8x2::new([sp[1], 1u8]), U8x2::new([sp[2], 2u8]), U8x2::new([sp[3], 3u8]), U8x2::new([sp[4], 4u8]), U8x2::new([sp[5], 5u8])];   // second lane = pixel index
         let mut parent = [U8x2::new([200, 200]); 16];
         let (l, t, w, h): (u8, u8, u8, u8) = (kani::any(), kani::any(), kani::any(), kani::any());
-        kani::assume(w >= 1 && h >= 1 && l + w <= 3 && t + h <= 2);
+        kani::assume(w >= 1 && h >= 1 && l as u32 + w as u32 <= 3 && t as u32 + h as u32 <= 2);
         let opts = ResizeOptions::new().resize_alg(ResizeAlg::Nearest).crop(l as f64, t as f64, w as f64, h as f64);
         let mut r = fv_resizer(Vec::new(), Vec::new(), Vec::new());
         {
